@@ -209,6 +209,7 @@ where
     let per_shard = cases.div_ceil(threads as u64);
     let results: Mutex<Vec<(Stats, Option<Violation>, Option<String>)>> = Mutex::new(vec![]);
     let sub_hash = fnv64(subcheck.as_bytes());
+    let slow_ms: Option<u64> = std::env::var("VERIF_SLOW_MS").ok().and_then(|s| s.parse().ok());
     std::thread::scope(|scope| {
         for shard in 0..threads {
             let known = &known;
@@ -251,6 +252,7 @@ where
                             st.evaluations += 1;
                         }
                         // a panic that escapes the case function is a harness fault, never a violation
+                        let started = slow_ms.map(|_| Instant::now());
                         let verdict = match crate::engine::catch(|| {
                             if counting {
                                 case(&bytes, &mut st, true)
@@ -262,6 +264,13 @@ where
                             Ok(v) => v,
                             Err(p) => Verdict::HarnessBug(format!("case function panicked: {}", p.render())),
                         };
+                        // diagnostics only (never part of a verdict): VERIF_SLOW_MS=<n> lists the cases slower than n ms
+                        if let (Some(limit), Some(t)) = (slow_ms, started) {
+                            let ms = t.elapsed().as_millis() as u64;
+                            if ms >= limit {
+                                eprintln!("slow case: {ms} ms subcheck={subcheck} choices={}", hex(&bytes));
+                            }
+                        }
                         match verdict {
                             Verdict::Pass => Ok(()),
                             Verdict::Discard(reason) => {
@@ -388,6 +397,26 @@ pub struct Evidence {
     pub extra: BTreeMap<String, Json>,
 }
 
+/// Memory watchdog: a check that grows beyond `limit_gb` resident memory stops with exit code 2 (inconclusive)
+/// instead of taking the machine down; never a violation.
+pub fn start_memory_watchdog(limit_gb: u64) {
+    std::thread::spawn(move || loop {
+        std::thread::sleep(std::time::Duration::from_millis(500));
+        if let Ok(statm) = std::fs::read_to_string("/proc/self/statm") {
+            let resident_pages: u64 = statm.split_whitespace().nth(1).and_then(|x| x.parse().ok()).unwrap_or(0);
+            if resident_pages * 4096 > limit_gb << 30 {
+                eprintln!("INCONCLUSIVE: memory watchdog: resident set above {limit_gb} GB; stopping (not a violation)");
+                std::process::exit(2);
+            }
+        }
+    });
+}
+
+/// the case-count multiplier of this process (env VERIF_SCALE, default 1); recorded in every evidence file
+pub fn env_scale() -> f64 {
+    std::env::var("VERIF_SCALE").ok().and_then(|s| s.parse().ok()).unwrap_or(1.0)
+}
+
 impl Evidence {
     pub fn write(&self) {
         let dir = Path::new(VERIF_ROOT).join("evidence");
@@ -410,6 +439,7 @@ impl Evidence {
         coverage.insert("discards".into(), json!(self.stats.discards));
         coverage.insert("known_finding_hits".into(), json!(self.stats.known_hits));
         coverage.insert("counters".into(), json!(self.stats.extra));
+        coverage.insert("case_count_scale".into(), json!(env_scale()));
         if let Some(e) = self.exhaustive {
             coverage.insert("exhaustive".into(), json!(e));
         }
